@@ -1069,7 +1069,8 @@ package gorums
 //
 // Calling a lessFunc value that is the provided key ID yields ID's result (meaning of
 // apply_lessFunc for a known function; ID's body is proved to order by id in C19).
-//@ axiom C14.apply-ID (a *RawNode, b *RawNode): a != nil && b != nil ==> (apply_lessFunc(funcval("var ID"), a, b) <==> a.id < b.id)
+//@ axiom C14.apply-ID (a *RawNode, b *RawNode): with(a != nil && b != nil ==> (apply_lessFunc(funcval("var ID"), a, b) <==> a.id < b.id), \
+//@     apply_lessFunc(funcval("var ID"), a, b))
 
 //@ func (RawConfiguration).NodeIDs
 //@   props C14
@@ -1134,6 +1135,9 @@ package gorums
 //@   ensures[C14.f] result != nil ==> old(in(node.id, m.lookup)) && m.lookup == old(m.lookup) && m.nodes == old(m.nodes)
 //@   ensures[C14.f] result != nil ==> forall(id, in(id, m.lookup) <==> old(in(id, m.lookup)))
 //@   ensures node.id == old(node.id) && node.addr == old(node.addr)
+//@   ensures[C14.d] base(m.nodes) == old(base(m.nodes)) || !wasalloc(base(m.nodes))
+//@   ensures[C14.d] forall(b, forall(k, b != old(base(m.nodes)) && wasalloc(b) ==> elems("*RawNode")[b][k] == old(elems("*RawNode")[b][k])))
+//@   ensures[C14.f] forall(n, "*RawNode", wasalloc(n) ==> n.id == old(n.id) && n.addr == old(n.addr))
 
 //@ func (*RawNode).connect
 //@   props C14
@@ -1143,12 +1147,12 @@ package gorums
 
 //@ func NewRawNodeWithID
 //@   props C14
-//@   ensures[C14.g] result1 == nil ==> result0 != nil && result0.id == id && result0.addr == tcpString(resolved(addr)) && !old(allocated(result0))
+//@   ensures[C14.g] result1 == nil ==> result0 != nil && result0.id == id && result0.addr == tcpString(resolved(addr)) && !wasalloc(result0)
 //@   ensures[C14.g] result1 != nil ==> result0 == nil
 
 //@ func NewRawNode
 //@   props C14
-//@   ensures[C14.g] result1 == nil ==> result0 != nil && result0.addr == tcpString(resolved(addr)) && !old(allocated(result0))
+//@   ensures[C14.g] result1 == nil ==> result0 != nil && result0.addr == tcpString(resolved(addr)) && !wasalloc(result0)
 //@   ensures[C14.g] result1 != nil ==> result0 == nil
 
 //@ func NewRawConfiguration
@@ -1252,3 +1256,134 @@ package gorums
 //@   ensures[C14.c] err == nil ==> forall(k, 0, len(o.nodeIDs), old(in(o.nodeIDs[k], mgr.lookup)))
 //@   ensures[C14.a] err == nil ==> forall(i, 0, len(nodes), nodes[i] != nil) && forall(i, 0, len(nodes), forall(j, 0, len(nodes), i < j ==> nodes[i].id < nodes[j].id))
 //@   ensures[C14.d] forall(k, 0, len(o.nodeIDs), o.nodeIDs[k] == old(o.nodeIDs[k]))
+
+// WithNodeList: one node per distinct address, carrying that address; an address whose
+// generated id is registered for a different address is rejected (C14.g).
+//@ func (nodeList).newConfig
+//@   props C14
+//@   nopanic C14
+//@   requires mgr != nil && mgr.lookup != nil
+//@   requires forall(id, in(id, mgr.lookup) ==> mgr.lookup[id] != nil && mgr.lookup[id].id == id)
+//@   loop "for _, naddr := range o.addrsList"
+//@     invariant base(nodes) != 0 && base(nodes) != base(o.addrsList) && base(nodes) != base(mgr.nodes) && mgr.lookup != nil
+//@     invariant forall(id, in(id, mgr.lookup) ==> mgr.lookup[id] != nil && mgr.lookup[id].id == id)
+//@     invariant forall(i, 0, len(nodes), nodes[i] != nil)
+//@     invariant[C14.f] forall(i, 0, len(nodes), in(nodes[i].id, mgr.lookup) && mgr.lookup[nodes[i].id] == nodes[i])
+//@     invariant[C14.a] forall(i, 0, len(nodes), forall(j, 0, len(nodes), i != j ==> nodes[i].id != nodes[j].id))
+//@     invariant[C14.g] forall(k, 0, idx, exists(i, 0, len(nodes), nodes[i].addr == tcpString(resolved(o.addrsList[k]))))
+//@     invariant[C14.d] forall(k, 0, len(o.addrsList), o.addrsList[k] == old(o.addrsList[k]))
+//@     invariant len(nodes) <= idx && (idx > 0 ==> len(nodes) > 0)
+//@   on call "mgr.sortNodes"
+//@     after assert forall(i, 0, len(nodes), nodes[i] != nil)
+//@     after assert[C14.a] forall(i, 0, len(nodes), forall(j, 0, len(nodes), i != j ==> nodes[i].id != nodes[j].id))
+//@     after assert[C14.g] forall(k, 0, len(o.addrsList), exists(i, 0, len(nodes), nodes[i].addr == tcpString(resolved(o.addrsList[k]))))
+//@   on call "OrderedBy(ID).Sort"
+//@     assume forall(a, "*RawNode", forall(b, "*RawNode", with(a != nil && b != nil ==> (apply_lessFunc(funcval("var ID"), a, b) <==> a.id < b.id), apply_lessFunc(funcval("var ID"), a, b))))
+//@     after assert[C14.a] forall(i, 0, len(nodes), nodes[i] != nil)
+//@     after assert[C14.a] forall(i, 0, len(nodes), forall(j, 0, len(nodes), i != j ==> nodes[i].id != nodes[j].id))
+//@     after assert[C14.a] forall(i, 0, len(nodes), forall(j, 0, len(nodes), i < j ==> !apply_lessFunc(funcval("var ID"), nodes[j], nodes[i])))
+//@     after assert[C14.a] forall(i, 0, len(nodes), forall(j, 0, len(nodes), i < j ==> nodes[i].id <= nodes[j].id))
+//@   ensures[C14.e] err == nil ==> len(nodes) > 0
+//@   ensures[C14.e] len(o.addrsList) == 0 ==> err != nil
+//@   ensures[C14.a] err == nil ==> forall(i, 0, len(nodes), nodes[i] != nil) && forall(i, 0, len(nodes), forall(j, 0, len(nodes), i < j ==> nodes[i].id < nodes[j].id))
+//@   ensures[C14.d] forall(k, 0, len(o.addrsList), o.addrsList[k] == old(o.addrsList[k]))
+
+// Except / WithoutNodes: the ids of c that are not removed, in c's order (C14.b); the
+// result is resolved by (nodeIDs).newConfig above. Ghost src[j] = index in c of keepIDs[j];
+// dst[i] = index in keepIDs of c[i]'s id when it is kept.
+//@ func (RawConfiguration).Except
+//@   props C14
+//@   nopanic C14
+//@   requires forall(k, 0, len(c), c[k] != nil) && forall(k, 0, len(rm), rm[k] != nil)
+//@   ghost src (Array Int Int) = constarr("Int", 0)
+//@   ghost dst (Array Int Int) = constarr("Int", 0)
+//@   loop "for _, rmNode := range rm"
+//@     invariant rmIDs != nil && forall(k, 0, idx, in(rm[k].id, rmIDs) && rmIDs[rm[k].id])
+//@     invariant forall(id, in(id, rmIDs) ==> rmIDs[id] && exists(k, 0, idx, rm[k].id == id))
+//@     invariant[C14.d] forall(k, 0, len(rm), rm[k] == old(rm[k])) && forall(k, 0, len(c), c[k] == old(c[k]))
+//@   on call "append(keepIDs*"
+//@     after set src = store(src, len(res) - 1, idx - 1)
+//@     after set dst = store(dst, idx - 1, len(res) - 1)
+//@   loop "for _, cNode := range c"
+//@     invariant rmIDs != nil && base(keepIDs) != 0 && len(keepIDs) <= idx
+//@     invariant forall(k, 0, len(rm), in(rm[k].id, rmIDs) && rmIDs[rm[k].id])
+//@     invariant forall(id, in(id, rmIDs) ==> rmIDs[id] && exists(k, 0, len(rm), rm[k].id == id))
+//@     invariant forall(j, 0, len(keepIDs), 0 <= src[j] && src[j] < idx && keepIDs[j] == c[src[j]].id && !in(keepIDs[j], rmIDs))
+//@     invariant forall(i, 0, idx, !in(c[i].id, rmIDs) ==> 0 <= dst[i] && dst[i] < len(keepIDs) && keepIDs[dst[i]] == c[i].id)
+//@     invariant[C14.d] forall(k, 0, len(rm), rm[k] == old(rm[k])) && forall(k, 0, len(c), c[k] == old(c[k]))
+//@   ensures[C14.b] typeis(result, "*nodeIDs") && result.(*nodeIDs) != nil
+//@   ensures[C14.b] forall(j, 0, len(result.(*nodeIDs).nodeIDs), exists(i, 0, len(c), result.(*nodeIDs).nodeIDs[j] == c[i].id) && \
+//@       forall(k, 0, len(rm), rm[k].id != result.(*nodeIDs).nodeIDs[j]))
+//@   ensures[C14.b] forall(i, 0, len(c), forall(k, 0, len(rm), rm[k].id != c[i].id) ==> exists(j, 0, len(result.(*nodeIDs).nodeIDs), result.(*nodeIDs).nodeIDs[j] == c[i].id))
+//@   ensures[C14.d] forall(k, 0, len(rm), rm[k] == old(rm[k])) && forall(k, 0, len(c), c[k] == old(c[k]))
+
+//@ func (RawConfiguration).WithoutNodes
+//@   props C14
+//@   nopanic C14
+//@   requires forall(k, 0, len(c), c[k] != nil)
+//@   ghost src (Array Int Int) = constarr("Int", 0)
+//@   ghost dst (Array Int Int) = constarr("Int", 0)
+//@   loop "for _, id := range ids"
+//@     invariant rmIDs != nil && forall(k, 0, idx, in(ids[k], rmIDs) && rmIDs[ids[k]])
+//@     invariant forall(id, in(id, rmIDs) ==> rmIDs[id] && exists(k, 0, idx, ids[k] == id))
+//@     invariant[C14.d] forall(k, 0, len(ids), ids[k] == old(ids[k])) && forall(k, 0, len(c), c[k] == old(c[k]))
+//@   on call "append(keepIDs*"
+//@     after set src = store(src, len(res) - 1, idx - 1)
+//@     after set dst = store(dst, idx - 1, len(res) - 1)
+//@   loop "for _, cNode := range c"
+//@     invariant rmIDs != nil && base(keepIDs) != 0 && len(keepIDs) <= idx && base(keepIDs) != base(ids)
+//@     invariant[C14.d] forall(k, 0, len(ids), ids[k] == old(ids[k]))
+//@     invariant forall(k, 0, len(ids), in(ids[k], rmIDs) && rmIDs[ids[k]])
+//@     invariant forall(id, in(id, rmIDs) ==> rmIDs[id] && exists(k, 0, len(ids), ids[k] == id))
+//@     invariant forall(j, 0, len(keepIDs), 0 <= src[j] && src[j] < idx && keepIDs[j] == c[src[j]].id && !in(keepIDs[j], rmIDs))
+//@     invariant forall(i, 0, idx, !in(c[i].id, rmIDs) ==> 0 <= dst[i] && dst[i] < len(keepIDs) && keepIDs[dst[i]] == c[i].id)
+//@     invariant[C14.d] forall(k, 0, len(c), c[k] == old(c[k]))
+//@   ensures[C14.b] typeis(result, "*nodeIDs") && result.(*nodeIDs) != nil
+//@   ensures[C14.b] forall(j, 0, len(result.(*nodeIDs).nodeIDs), exists(i, 0, len(c), result.(*nodeIDs).nodeIDs[j] == c[i].id) && \
+//@       forall(k, 0, len(ids), ids[k] != result.(*nodeIDs).nodeIDs[j]))
+//@   ensures[C14.b] forall(i, 0, len(c), forall(k, 0, len(ids), ids[k] != c[i].id) ==> exists(j, 0, len(result.(*nodeIDs).nodeIDs), result.(*nodeIDs).nodeIDs[j] == c[i].id))
+//@   ensures[C14.d] forall(k, 0, len(c), c[k] == old(c[k])) && forall(k, 0, len(ids), ids[k] == old(ids[k]))
+
+//@ func (RawConfiguration).And
+//@   props C14
+//@   ensures[C14.b] typeis(result, "*addConfig") && result.(*addConfig) != nil && result.(*addConfig).old == c && result.(*addConfig).add == d
+//@ func (RawConfiguration).WithNewNodes
+//@   props C14
+//@   ensures[C14.b] typeis(result, "*addNodes") && result.(*addNodes) != nil && result.(*addNodes).old == c && result.(*addNodes).new == new
+//@ func WithNodeIDs
+//@   props C14
+//@   ensures[C14.c] typeis(result, "*nodeIDs") && result.(*nodeIDs) != nil && result.(*nodeIDs).nodeIDs == ids
+//@ func WithNodeList
+//@   props C14
+//@   ensures[C14.g] typeis(result, "*nodeList") && result.(*nodeList) != nil && result.(*nodeList).addrsList == addrsList
+//@ func WithNodeMap
+//@   props C14
+//@   ensures[C14.g] typeis(result, "*nodeIDMap") && result.(*nodeIDMap) != nil && result.(*nodeIDMap).idMap == idMap
+
+// WithNodeMap: map range in arbitrary order (ghost visited set). Non-emptiness of the
+// result (C14.e) is not claimed here: the map model does not tie len(m) > 0 to the
+// existence of a key.
+//@ func (nodeIDMap).newConfig
+//@   props C14
+//@   nopanic C14
+//@   requires mgr != nil && mgr.lookup != nil
+//@   requires forall(id, in(id, mgr.lookup) ==> mgr.lookup[id] != nil && mgr.lookup[id].id == id)
+//@   loop "for naddr, id := range o.idMap"
+//@     invariant base(nodes) != 0 && base(nodes) != base(mgr.nodes) && mgr.lookup != nil
+//@     invariant forall(id, in(id, mgr.lookup) ==> mgr.lookup[id] != nil && mgr.lookup[id].id == id)
+//@     invariant forall(i, 0, len(nodes), nodes[i] != nil)
+//@     invariant[C14.f] forall(i, 0, len(nodes), in(nodes[i].id, mgr.lookup) && mgr.lookup[nodes[i].id] == nodes[i])
+//@     invariant[C14.a] forall(i, 0, len(nodes), forall(j, 0, len(nodes), i != j ==> nodes[i].id != nodes[j].id))
+//@     invariant[C14.g] forall(a, "Str", visited(a) ==> exists(i, 0, len(nodes), nodes[i].id == o.idMap[a] && nodes[i].addr == tcpString(resolved(a))))
+//@   on call "mgr.sortNodes"
+//@     after assert forall(i, 0, len(nodes), nodes[i] != nil)
+//@     after assert[C14.a] forall(i, 0, len(nodes), forall(j, 0, len(nodes), i != j ==> nodes[i].id != nodes[j].id))
+//@     after assert[C14.g] forall(a, "Str", in(a, o.idMap) ==> exists(i, 0, len(nodes), nodes[i].id == o.idMap[a] && nodes[i].addr == tcpString(resolved(a))))
+//@   on call "OrderedBy(ID).Sort"
+//@     assume forall(a, "*RawNode", forall(b, "*RawNode", with(a != nil && b != nil ==> (apply_lessFunc(funcval("var ID"), a, b) <==> a.id < b.id), apply_lessFunc(funcval("var ID"), a, b))))
+//@     after assert[C14.a] forall(i, 0, len(nodes), nodes[i] != nil)
+//@     after assert[C14.a] forall(i, 0, len(nodes), forall(j, 0, len(nodes), i != j ==> nodes[i].id != nodes[j].id))
+//@     after assert[C14.a] forall(i, 0, len(nodes), forall(j, 0, len(nodes), i < j ==> !apply_lessFunc(funcval("var ID"), nodes[j], nodes[i])))
+//@     after assert[C14.a] forall(i, 0, len(nodes), forall(j, 0, len(nodes), i < j ==> nodes[i].id <= nodes[j].id))
+//@   ensures[C14.e] len(o.idMap) == 0 ==> err != nil
+//@   ensures[C14.a] err == nil ==> forall(i, 0, len(nodes), nodes[i] != nil) && forall(i, 0, len(nodes), forall(j, 0, len(nodes), i < j ==> nodes[i].id < nodes[j].id))
